@@ -547,16 +547,16 @@ func (k *Key) MarshalCBOR() ([]byte, error) {
 	if k.BaseIV != nil {
 		tmp[keyLabelBaseIV] = k.BaseIV
 	}
-	existing := make(map[any]struct{}, len(k.Params))
 	for label, v := range k.Params {
 		lbl, ok := normalizeLabel(label)
 		if !ok {
 			return nil, fmt.Errorf("invalid label type %T", label)
 		}
-		if _, ok := existing[lbl]; ok {
+		// tmp already holds the common parameters set through the struct
+		// fields: a label in Params must not silently replace one of them.
+		if _, ok := tmp[lbl]; ok {
 			return nil, fmt.Errorf("duplicate label %v", lbl)
 		}
-		existing[lbl] = struct{}{}
 		tmp[lbl] = v
 	}
 	if k.Type == KeyTypeEC2 {
